@@ -334,7 +334,7 @@ class Inliner:
         for p, arg in binding.items():
             stored = hfacts.stores.get(p, 0) > 0
             uses = sum(_count_loads(s, p) for s in h.body)
-            if not stored and (_simple(arg) or uses == 0):
+            if not stored and (_simple(arg) or uses == 0 or _accessor(arg)):
                 # a complex argument is bound to a local first: substituting it at its use could move its
                 # evaluation into a `try`, a branch or a loop of the helper (S9 inlines it again where that is safe)
                 subst[p] = arg
